@@ -95,13 +95,13 @@ func Load(dir string, cfg BuildConfig, needCG bool) (*Prog, error) {
 			// construct, the tree is analysed as it is (calls of new helpers stay calls)
 			defer func() {
 				if r := recover(); r != nil {
-					overlay, irep = nil, &inlineReport{Kept: []string{fmt.Sprintf("inlining pre-pass abandoned: %v", r)}, Dead: map[string]bool{}}
+					overlay, irep = nil, &inlineReport{Kept: []string{fmt.Sprintf("inlining pre-pass abandoned: %v", r)}, Dead: map[string]bool{}, DeadMethods: map[string]bool{}}
 				}
 			}()
 			var err error
 			overlay, irep, err = inlineNewHelpers(dir, cfg, normaliseVerif)
 			if err != nil {
-				overlay, irep = nil, &inlineReport{Kept: []string{"inlining pre-pass abandoned: " + err.Error()}, Dead: map[string]bool{}}
+				overlay, irep = nil, &inlineReport{Kept: []string{"inlining pre-pass abandoned: " + err.Error()}, Dead: map[string]bool{}, DeadMethods: map[string]bool{}}
 			}
 		}()
 	}
@@ -296,13 +296,16 @@ func (p *Prog) ModuleFuncs() []*ssa.Function {
 	var out []*ssa.Function
 	for f := range p.AllFuncs {
 		if f.Blocks != nil && inModule(f) && f.Synthetic == "" {
-			if p.Inline != nil && len(p.Inline.Dead) > 0 {
+			if p.Inline != nil && len(p.Inline.Dead)+len(p.Inline.DeadMethods) > 0 {
 				root := f
 				for root.Parent() != nil {
 					root = root.Parent()
 				}
 				if root.Signature.Recv() == nil && p.Inline.Dead[funcKey(root)] {
 					continue // a new helper that was inlined everywhere: not part of the analysed program
+				}
+				if n := recvNamed(root); n != nil && n.Obj().Pkg() != nil && p.Inline.DeadMethods[n.Obj().Pkg().Path()+"."+n.Obj().Name()+"."+root.Name()] {
+					continue
 				}
 			}
 			out = append(out, f)
